@@ -29,7 +29,8 @@ vars == <<prog, ist, rst, meta>>
 Names == {"x", "y"}
 
 MCSigma == CASE PoolSel = "core" -> {"a", "b", "\n"}
-             [] PoolSel = "hyg"  -> {"a", "\"", "\\", " "}
+             [] PoolSel = "hyg"  -> {"a", "\"", "\\", " ", "E"}   \* E stands for the control character 0x0e (see SymMap)
+             [] PoolSel = "fold" -> {"a", "A", "b"}
              [] PoolSel = "cmd"  -> {"a", "x", ".", " ", "@"}
 MCDev   == {}
 \* toolchain.yaml contents: anti-evasion pattern, suffix pattern, no-space suffix pattern per shell
@@ -107,8 +108,21 @@ PoolHyg == <<
     RT("(?i)a.$",    << <<La, Dot, Eol>> >>)
 >>
 
+\* case folding: lower-case sources (the precondition of the format lint), upper-case subjects
+PoolFold == <<
+    RT("a",      One(La)),
+    RT("ab",     << <<La, Lb>> >>),
+    RT("[ab]",   One(Cls({"a", "b"}))),
+    RT("[^a]",   One(NCls({"a"}))),
+    RT("a|bb",   << <<La>>, <<Lb, Lb>> >>),
+    RT("b+",     One(Q("plus", Lb))),
+    RT(".",      One(Dot)),
+    RT("(?:a|b)a", << <<Grp(<< <<La>>, <<Lb>> >>), La>> >>)
+>>
 PoolCmd == << RT("a", One(La)), RT("ax", << <<La, Lx>> >>) >>
-Pool == CASE PoolSel = "core" -> PoolCore [] PoolSel = "hyg" -> PoolHyg [] PoolSel = "cmd" -> PoolCmd
+Pool == CASE PoolSel = "core" -> PoolCore [] PoolSel = "hyg" -> PoolHyg [] PoolSel = "cmd" -> PoolCmd [] PoolSel = "fold" -> PoolFold
+\* symbols of Sigma that stand for characters a TLA+ string cannot hold (hex code of the character)
+SymMap == IF PoolSel = "hyg" THEN [E |-> "0e"] ELSE <<>>
 
 \* command words for cmdline blocks
 Words == IF PoolSel = "cmd"
@@ -240,7 +254,7 @@ ExportCase == (Export /\ Complete) => PrintT(ToJson(Case))
 
 \* the alphabet, the universe and every pool entry with its language: lets the
 \* harness re-check the pairing of concrete text and fragment
-PoolInfo == [sigma |-> Sigma, n |-> N, config |-> ConfigText, cfgsel |-> CfgSel,
+PoolInfo == [sigma |-> Sigma, n |-> N, symmap |-> SymMap, config |-> ConfigText, cfgsel |-> CfgSel,
              pool |-> [i \in 1..Len(Pool) |->
                         [txt |-> Pool[i].txt, lang |-> { Str(s) : s \in LangF(Pool[i].f, {}) }]]]
 ASSUME Export => PrintT(ToJson([poolinfo |-> PoolInfo]))
